@@ -419,6 +419,29 @@ Proof.
     rewrite z_tr_loop_noplan in H. zinv H. reflexivity.
 Qed.
 
+(* KEEP SNAPSHOT: with the constructor as translated (keep deep-copied), overwriting the caller's index objects at
+   any points of the history changes nothing: the run is the atomic spec over the values the keeps had at construction *)
+Lemma z_run_events_refines : forall w, z_wf (z_snapshot w) -> forall evs st h c, z_inv (z_snapshot w) h c ->
+  z_run_events getitem c04_init_keep_deepcopied z_code w st h evs
+    = z_spec_run getitem (z_snapshot w) c (z_requests_of evs).
+Proof.
+  intros w W. induction evs as [|[r v|objs plan] es IH]; intros st h c I; [reflexivity| |].
+  - simpl. apply IH. exact I.
+  - cbn [z_run_events z_requests_of flat_map app z_spec_run].
+    change (map (fun d : z_par V * (K * option nat) * list (V -> V) =>
+                   let (y, tr) := d in let (p, kr) := y in ZD p (z_keep_seen c04_init_keep_deepcopied st kr) tr) w)
+      with (z_snapshot w).
+    destruct (z_request getitem z_code (z_snapshot w) plan h objs) as [h1 res] eqn:R.
+    destruct (z_request_refines (z_snapshot w) W plan objs h c I _ _ R) as [c1 [S1 I1]]. rewrite S1.
+    f_equal. now apply IH.
+Qed.
+
+Theorem z_keep_snapshot : forall w, z_wf (z_snapshot w) -> forall evs st,
+  z_run_events getitem c04_init_keep_deepcopied z_code w st (z_init (z_snapshot w)) evs
+    = z_spec_run getitem (z_snapshot w) (fun _ => None) (z_requests_of evs).
+Proof. intros w W evs st. apply z_run_events_refines; auto. apply z_inv_init. Qed.
+
+(* ... and the deep copy is needed: constructor keeping the caller's object, one mutation before the first access *)
 Lemma z_cache_ok_empty : forall w, z_cache_ok w (fun _ => None).
 Proof. intros w k a H. discriminate. Qed.
 
@@ -523,3 +546,13 @@ Proof.
     destruct i; discriminate. }
   split; [exact W|]. split; [vm_compute; reflexivity|]. now apply z_run_refines_init.
 Qed.
+
+(* without the deep copy (flag false) the caller's later value of the index object is what stage 1 sees *)
+Lemma z_keep_alias_refuted :
+  let w := [(ZPBase 5%Z, (1%Z, Some 0), @nil (Z -> Z))] in
+  let evs := [ZMutate 0 100%Z; ZRequest [0] (fun _ _ => false)] in
+  z_run_events (fun a k => Some (a + k)%Z) false z_code w (fun _ => 1%Z) (z_init (z_snapshot w)) evs
+    = [[(ZRet 105%Z, [])]] /\
+  z_spec_run (fun a k => Some (a + k)%Z) (z_snapshot w) (fun _ => None) (z_requests_of evs)
+    = [[(ZRet 6%Z, [])]].
+Proof. split; vm_compute; reflexivity. Qed.
